@@ -237,6 +237,19 @@ func genLiterals(c *core.Check, emit func(Program) bool) {
 	}
 	// numbers
 	nums := []string{"0", "00", "08", "0.0", ".0", "0.", "1.", "1.0", "1.50", "1e3", "1E3", "1e+3", "1e-3", "100", "1000", "10000", "100000", "1000000", "0x10", "0XAB", "0o17", "0O17", "0b11", "0B11", "017", "019", "1_000", "1_0.0_1", "0xfff_f", "1n", "0x1fn", "0n", "100000000000000000000", "1e21", "1e-7", "0.0000001", "0.000001", "123456789012345678901234567890", "9007199254740993", "0.1e1", "5e-324", "1.7976931348623157e308", "1e400", "1e-400", "0xffffffffff", "1000000n", "0b1_1", ".5e1", "5.e1", "011", "0.5", "0.50", "00.5", "1.0e0", "10e-1", "1e0", "1e1", "1e2", "12e1", "0e0", "0.000", "0x0", "0b0", "0o0", "1000000000000000128", "4294967296", "2147483648", "0xFFFFFFFF", "0XfFn", "1e3n", "0xb0", "0xe0", "0xE", "0xb", "0x0e", "0XB", "0xbn", "0x0_0", "0xe_0", "0b0_0", "0b0_1", "0o0_0", "0.0_0", "0xBEEF", "0x0b0e", "0xFFFFFFFFFFFFFFFFn", "0xFFFFFFFFFFFFFFFFFFFFn", "0o7777777777777777777777777n", "0b" + strings.Repeat("1", 70) + "n", "123456789012345678901234567890n", "0xFFFFFFFFFFFFFFFF", "0b" + strings.Repeat("1", 70)}
+	// hexadecimal, octal and binary literals of every length around the limits of the conversion to decimal, with the leading
+	// digits that decide the number of decimal digits
+	for l := 1; l <= 14; l++ {
+		for _, d := range []string{"1", "7", "8", "d", "D", "e", "E", "f", "F"} {
+			nums = append(nums, "0x"+d+strings.Repeat("F", l-1), "0X"+d+strings.Repeat("0", l-1))
+		}
+	}
+	for l := 18; l <= 24; l++ {
+		nums = append(nums, "0o"+strings.Repeat("7", l), "0o1"+strings.Repeat("0", l-1))
+	}
+	for l := 50; l <= 66; l += 2 {
+		nums = append(nums, "0b"+strings.Repeat("1", l), "0b1"+strings.Repeat("0", l-1))
+	}
 	for _, x := range nums {
 		for _, t := range []string{"return [X]", "return [-X]", "return [(X).toString()]", "return [X .toString()]", "return [X+1,X-1,1+X,1-X]", "return [a+X,a-X,a*X]", "return [typeof X]", "return [typeof (X)=='bigint'?String(X):X]", "return [X in [1,2]]", "return {p:X}", "return [X?1:2]", "return [!X,!!X]", "if(X)return 1;return 2", "return [X,X]", "return [X==0,X===0]", "var o={};o[X]=1;return o", "return [[1,2,3][X]]", "return [X .p]", "return [X['toFixed']&&X.toFixed(1)]"} {
 			if !emit(Program{fn("var a=h0();" + strings.ReplaceAll(t, "X", x)), "fn", [][]string{{"1"}, {"a"}}}) {
